@@ -1,6 +1,6 @@
 """C05 Collection is bounded and spends its budget breadth-first."""
 from .common import *
-from pyvc.core import ALLOC_BASE, SymCallable, LogEntry
+from pyvc.core import ALLOC_BASE, SymCallable, LogEntry, tkey
 
 VP = "processor/variable_processor.py"
 VSP = "processor/variable_set_processor.py"
@@ -137,7 +137,7 @@ c.modifies = lambda S_: [("all",)]
 def _bfs_inv(L):
     h = L.now()
     q = L.local("queue")
-    L.I.st.ghost.setdefault("elem_sorts", {})[str(z3.simplify(q))] = OBJ("Node")     # the work list holds Nodes
+    L.I.st.ghost.setdefault("elem_sorts", {})[tkey(q)] = OBJ("Node")     # the work list holds Nodes
     return And(q == L.pre_local("queue"), h.llen(q) >= 0)
 
 
